@@ -7,6 +7,12 @@ For every source file under emg3d/ two variants are produced in memory:
   rename    as above, and every local variable of every function (names bound
             by assignment / for / with / comprehension inside the function
             that are not parameters, globals or nonlocals) renamed v -> v_rn
+  flipcmp   every single-operator ordering/equality comparison a < b written
+            the other way round (b > a); `is`/`in` comparisons untouched
+  swapif    every if/else with a non-empty else that is not an elif chain
+            written with the negated test and swapped arms
+  commute   (emg3d/core.py only: scalar arithmetic in the numba kernels)
+            operands of every + and * swapped
 Each check whose property touches the file is run on the variant through the
 self-test harness.  A violation here is a false alarm of the checker.
 
@@ -66,9 +72,47 @@ def local_names(fn):
             if not hasattr(builtins, x) and not x.startswith('__')}
 
 
+class FlipCmp(ast.NodeTransformer):
+    MAP = {ast.Lt: ast.Gt, ast.Gt: ast.Lt, ast.LtE: ast.GtE, ast.GtE: ast.LtE,
+           ast.Eq: ast.Eq, ast.NotEq: ast.NotEq}
+
+    def visit_Compare(self, n):
+        self.generic_visit(n)
+        if len(n.ops) == 1 and type(n.ops[0]) in self.MAP:
+            return ast.copy_location(ast.Compare(
+                n.comparators[0], [self.MAP[type(n.ops[0])]()], [n.left]), n)
+        return n
+
+
+class SwapIf(ast.NodeTransformer):
+    def visit_If(self, n):
+        self.generic_visit(n)
+        if n.orelse and not (len(n.orelse) == 1 and
+                             isinstance(n.orelse[0], ast.If)):
+            return ast.copy_location(ast.If(
+                ast.UnaryOp(ast.Not(), n.test), n.orelse, n.body), n)
+        return n
+
+
+class Commute(ast.NodeTransformer):
+    def visit_BinOp(self, n):
+        self.generic_visit(n)
+        if isinstance(n.op, (ast.Add, ast.Mult)) and not any(
+                isinstance(x, ast.Constant) and isinstance(x.value, str)
+                for x in (n.left, n.right)):
+            return ast.copy_location(ast.BinOp(n.right, n.op, n.left), n)
+        return n
+
+
 def variant(text, rename):
     tree = ast.parse(text)
-    if rename:
+    if rename == 'flipcmp':
+        tree = FlipCmp().visit(tree)
+    elif rename == 'swapif':
+        tree = SwapIf().visit(tree)
+    elif rename == 'commute':
+        tree = Commute().visit(tree)
+    elif rename:
         for node in ast.walk(tree):
             for i, st in enumerate(getattr(node, 'body', []) if isinstance(
                     node, (ast.Module, ast.ClassDef)) else []):
@@ -100,14 +144,19 @@ def one(job):
 
 def main():
     want = [a.upper() for a in sys.argv[1:]] or PIDS
-    jobs = [(p, f, r) for p in want for f in FILES for r in (False, True)]
+    modes = [False, True]
+    if '--more' in sys.argv:
+        modes = ['flipcmp', 'swapif', 'commute']
+    want = [w for w in want if not w.startswith('--')] or PIDS
+    jobs = [(p, f, r) for p in want for f in FILES for r in modes
+            if r != 'commute' or f == 'emg3d/core.py']
     bad = 0
     with ProcessPoolExecutor(max_workers=14) as ex:
         for pid, rel, rename, res, info in ex.map(one, jobs):
             if res != 'silent':
                 bad += res == 'FALSE-ALARM'
                 print(f'{res:12} {pid} {rel} '
-                      f'{"rename" if rename else "reformat"}: {info}')
+                      f'{rename if isinstance(rename, str) else "rename" if rename else "reformat"}: {info}')
     print(f'{len(jobs)} variants, {bad} false alarms')
     return 1 if bad else 0
 
